@@ -94,8 +94,33 @@ class CrashTracer:
 # ---------------------------------------------------------------------------
 # scenario generation (pure function of the PRNG)
 # ---------------------------------------------------------------------------
+def gen_sweep_scenario(rng, index):
+    """Systematic part of the search: one evaluator, and a window of CONSECUTIVE crash points (stage calls or stage line
+    events) of one compile, each injected into its own recompile attempt. Windows of different runs tile the whole compile,
+    so a long batch visits every crash point of the sampled texts. After each failed attempt the cross-invariant demands the
+    old behaviour; the final fault-free recompile must switch."""
+    base = gen.gen_program(rng, f"r{index}t0", depths=[0, 1, 1, 2], compact=rng.random() < 0.5)
+    other = gen.variant_of(rng, base, f"r{index}t1") if rng.random() < 0.6 else gen.gen_program(rng, f"r{index}t1", depths=[0, 1, 2])
+    texts = [{"tid": p.tid, "text": p.text, "kind": p.kind, "note": p.note, "panel": gen.gen_panel(rng, p, n=6, ascii_only=True)}
+             for p in (base, other)]
+    mode = rng.choice(["call", "call", "line"])
+    width = rng.choice([30, 60, 100])
+    start = (index // 20) * width + rng.randrange(7) * 10007
+    exc = rng.choice(["InjectedFault", "MemoryError", "OSError"])
+    ops = [{"op": "new", "slot": 0, "t": 0}]
+    for j in range(width):
+        ops.append({"op": "recompile", "slot": 0, "t": 1, "fault": {"kind": "crash", "mode": mode, "abs": start + j, "exc": exc}})
+        if j % 25 == 24:
+            ops.append({"op": "recompile", "slot": 0, "t": 0})      # the current text again: a no-op
+    ops.append({"op": "recompile", "slot": 0, "t": 1})
+    ops.append({"op": "recompile", "slot": 0, "t": 0})
+    return {"index": index, "faults_enabled": True, "n_slots": 1, "texts": texts, "ops": ops, "family": "crash-sweep"}
+
+
 def gen_scenario(rng, index, faults_enabled):
     """Returns a JSON-serialisable scenario: alphabet + panels + op list."""
+    if index % 20 == 19:
+        return gen_sweep_scenario(rng, index)
     n_base = rng.choice([1, 2, 2, 3])
     progs = []
     shared_name = rng.choice(["exp_a", "exp_b", "cfg"])
@@ -108,12 +133,16 @@ def gen_scenario(rng, index, faults_enabled):
         progs.append(gen.gen_program(rng, f"r{index}t{len(progs)}", **opts))
     for j in range(rng.choice([1, 2, 3])):
         progs.append(gen.variant_of(rng, rng.choice(progs[:n_base]), f"r{index}t{len(progs)}"))
+    pairs = []       # (index a, index b): texts that a careless normalisation would take for the same text
     if rng.random() < 0.35:
-        progs.append(gen.near_variant_of(rng, rng.choice(progs), f"r{index}t{len(progs)}"))
-    if rng.random() < 0.2:
-        pair = gen.comment_lookalike_pair(rng, rng.choice(progs), f"r{index}t{len(progs)}", f"r{index}t{len(progs) + 1}")
+        b = rng.randrange(len(progs))
+        progs.append(gen.near_variant_of(rng, progs[b], f"r{index}t{len(progs)}"))
+        pairs.append((b, len(progs) - 1))
+    if rng.random() < 0.3:
+        pair = gen.lookalike_pair(rng, rng.choice(progs), f"r{index}t{len(progs)}", f"r{index}t{len(progs) + 1}")
         if pair:
             progs.extend(pair)
+            pairs.append((len(progs) - 2, len(progs) - 1))
     n_valid_intended = len(progs)
     for j in range(rng.choice([1, 2, 3, 4])):
         progs.append(gen.gen_invalid(rng, rng.choice(progs[:n_valid_intended]), f"r{index}t{len(progs)}"))
@@ -170,6 +199,17 @@ def gen_scenario(rng, index, faults_enabled):
             live[op["slot"]] = False
         ops.append(op)
         prev = op if op["op"] in ("new", "recompile") else None
+    # the short shape that matters for look-alike texts: one straight after the other on the same evaluator, and back
+    for (a, b) in pairs:
+        if rng.random() < 0.7:
+            slot = rng.randrange(n_slots)
+            if rng.random() < 0.5:
+                a, b = b, a
+            seq = [{"op": "new" if rng.random() < 0.5 else "recompile", "slot": slot, "t": a}, {"op": "recompile", "slot": slot, "t": b}]
+            if rng.random() < 0.5:
+                seq.append({"op": "recompile", "slot": slot, "t": a})
+            at = rng.randrange(len(ops) + 1)
+            ops[at:at] = seq
     return {"index": index, "faults_enabled": bool(faults_enabled), "n_slots": n_slots, "texts": texts, "ops": ops}
 
 
@@ -369,7 +409,9 @@ class Runner:
                 on = "call" if mode.endswith("call") else "line"
                 total = n_calls if on == "call" else n_lines
                 if total > 0:
-                    if mode.startswith("late"):
+                    if "abs" in fault:
+                        k = 1 + fault["abs"] % total
+                    elif mode.startswith("late"):
                         k = max(1, total - int(fault["u"] * min(total, 12 if on == "call" else 40)))
                     else:
                         k = 1 + int(fault["u"] * total)
